@@ -33,13 +33,13 @@ BUDGET_S = 2.0           # CPU seconds of this process (user + system): independ
 WALL_S = 60.0            # wall-clock backstop, for a call that blocks without computing
 
 
-def with_budget(f):
+def with_budget(f, scale=1):
     """run f under the time budget; Budget is raised when it is exceeded.  The budget is CPU time (ITIMER_PROF): a wall-clock
     budget reported terminating calls as divergent when several checks shared the machine (a false alarm, DESIGN 0.7)."""
     signal.signal(signal.SIGPROF, _alarm)
     signal.signal(signal.SIGALRM, _alarm)
-    signal.setitimer(signal.ITIMER_PROF, BUDGET_S)
-    signal.setitimer(signal.ITIMER_REAL, WALL_S)
+    signal.setitimer(signal.ITIMER_PROF, BUDGET_S * scale)
+    signal.setitimer(signal.ITIMER_REAL, WALL_S * scale)
     try:
         return f()
     finally:
@@ -71,16 +71,18 @@ def op_prefix(e):
 
 
 def guarded(f):
-    try:
-        return with_budget(f)
-    except Budget:
-        return ('RErr', ('EDiverge',), None)
-    except Unsupported:
-        raise
-    except RecursionError:
-        return ('RErr', ('EForeign',), None)
-    except Exception as e:
-        return err_term(e)
+    for scale in (1, 5):                    # a verdict of divergence is not taken from one run: once more with five times the budget
+        try:
+            return with_budget(f, scale=scale)
+        except Budget:
+            continue
+        except Unsupported:
+            raise
+        except RecursionError:
+            return ('RErr', ('EForeign',), None)
+        except Exception as e:
+            return err_term(e)
+    return ('RErr', ('EDiverge',), None)
 
 
 def run_parse(c, kw, data, start=0):
